@@ -12,6 +12,12 @@ def hooks_are_neutral(ck, tier, seed):
     p = os.path.join(tmp, "jobs.ndjson")
     open(p, "w").write("\n".join(json.dumps(j) for j in js if "cps" in j) + "\n")
     same, n = vlib.hook_neutrality(p)
+    if same is None:
+        jobs = [j for j in js if "cps" in j]
+        k = min(n["after_lines"], len(jobs) - 1)
+        ck.violation("the library crashed (rc %s) while shaping %s dir=%s" % (n["signal_or_rc"], jobs[k]["id"], jobs[k]["dir"]),
+                     {"why": "crash in gr_make_seg or a query (plain g++ -O1 build, public API only)", "job": jobs[k], "detail": n})
+        return
     if not same:
         raise vlib.Broken("the library built with -DGRAPHITE2_VERIF shapes differently from the library built without it: a hook is not neutral")
     ck.extra["hook_neutrality"] = "%d segments identical with and without -DGRAPHITE2_VERIF (public-API dumper, g++ -O1)" % n
